@@ -103,7 +103,9 @@ class RegistryServer(object):
     def cmd_register(self, host, names, port):
         """implementation of the ``register`` command"""
         self.logger.debug("registering %s:%s as %s", host, port, ", ".join(names))
-        brine.dump(((host, port),))  # refuse a server that could not be sent back in the reply to a query
+        # refuse a server that could not be sent back in the reply to a query, or found again (NaN != NaN)
+        if brine.load(brine.dump(((host, port),))) != ((host, port),):
+            raise ValueError("server address %s:%r is not equal to itself" % (host, port))
         for name in names:
             self._add_service(name.upper(), (host, port))
         return "OK"
